@@ -16,7 +16,15 @@ def _arr(x):
 
 
 def wf_params(wf) -> dict:
-    d = dict(wf._to_abstract_repr())
+    try:
+        d = dict(wf._to_abstract_repr())
+    except Exception:  # noqa: BLE001 - e.g. an InterpolatedWaveform with interpolator kwargs
+        d = {
+            "kind": type(wf).__name__,
+            "values": np.asarray(getattr(wf, "_values", ())).tolist(),
+            "times": np.asarray(getattr(wf, "_times", ())).tolist(),
+            "kwargs": repr(sorted(getattr(wf, "_kwargs", {}).items())),
+        }
     d.pop("duration", None)
     return {k: (np.asarray(v).tolist() if hasattr(v, "__len__") and not isinstance(v, (str, dict)) else v) for k, v in d.items()}
 
@@ -117,15 +125,27 @@ class C01(Oracle):
         name = op["ch"]
         verdict, why = self.must_accept(ctx, op, pre)
         ctx.stats[f"converse/{verdict}"] += 1
-        if verdict != "MUST_ACCEPT":
-            return v
         if not out.ok:
-            v.append(("C01/refused-valid", f"{op['op']} on {name} inside every limit was refused: {out.exc_type}: {out.exc_msg}"))
+            if verdict == "MUST_ACCEPT":
+                v.append(("C01/refused-valid", f"{op['op']} on {name} inside every limit was refused: {out.exc_type}: {out.exc_msg}"))
+            return v
+        # HOW an accepted pulse was scheduled (unchanged, or only lengthened to the
+        # next clock multiple) is judged whatever the verdict on acceptance was
+        if name not in pre.channels or name not in post.channels or pre.parametrized or post.parametrized:
+            return v
+        if op["op"] == "add" and (pre.channels[name].is_dmm or pre.channels[name].in_eom):
+            return v
+        if op["op"] == "add_dmm_detuning" and not pre.channels[name].is_dmm:
+            return v
+        try:
+            ops.build_pulse(op["pulse"]) if op["op"] == "add" else ops.build_wf(op["wf"])
+        except Exception:  # noqa: BLE001
             return v
         pcs, qcs = pre.channels[name], post.channels[name]
         new = S.new_slots(pcs, qcs)
         if not new or new[-1].kind not in ("pulse", "ddelay"):
-            v.append(("C01/not-scheduled", f"{op['op']} on {name} returned normally but no pulse was scheduled"))
+            if verdict == "MUST_ACCEPT":
+                v.append(("C01/not-scheduled", f"{op['op']} on {name} returned normally but no pulse was scheduled"))
             return v
         slot = new[-1]
         sub = ops.build_pulse(op["pulse"]) if op["op"] == "add" else None
